@@ -210,6 +210,9 @@ pub fn write_crate(universes: &[(String, Universe)], variant: &str) -> PathBuf {
         "-asan" => "default-features = false, features = [\"mmap\"]",
         _ => "default-features = true",
     };
+    // "-rel": everything the program links (epserde included) is built without debug assertions and overflow
+    // checks, as a release build of a user's program would be
+    let profile = if variant == "-rel" { PROFILE.replace("overflow-checks = true", "overflow-checks = false").replace("debug-assertions = true", "debug-assertions = false").replace("opt-level = 1", "opt-level = 2") } else { PROFILE.to_string() };
     let toml = format!(
         r#"[package]
 name = "vsubjects{v}"
@@ -236,7 +239,7 @@ debug = 0
         h = HARNESS,
         r = REPO,
         features = features,
-        PROFILE = PROFILE
+        PROFILE = profile
     );
     write_if_changed(&dir.join("Cargo.toml"), &toml);
     let lock = std::fs::read_to_string(format!("{}/Cargo.lock", HARNESS)).expect("harness Cargo.lock");
@@ -286,6 +289,9 @@ pub fn cargo_build(dir: &Path, keep_going: bool) -> BuildOutcome {
         c.arg("+nightly");
         c.env("RUSTFLAGS", "-Zsanitizer=address --cfg epserde_verif").env("CARGO_TARGET_DIR", format!("{}/target-asan", WORK));
     }
+    if variant() == "-rel" {
+        c.env("CARGO_TARGET_DIR", format!("{}/target-rel", WORK));
+    }
     c.arg("build").arg("--manifest-path").arg(dir.join("Cargo.toml")).arg("--bins").arg("--message-format=json").arg("--offline");
     if keep_going {
         c.arg("--keep-going");
@@ -329,6 +335,7 @@ pub fn cargo_check(dir: &Path) -> BuildOutcome {
 pub fn bin_path(label: &str) -> String {
     match variant() {
         "-asan" => format!("{}/target-asan/x86_64-unknown-linux-gnu/debug/{}", WORK, label),
+        "-rel" => format!("{}/target-rel/debug/{}", WORK, label),
         _ => format!("{}/target/debug/{}", WORK, label),
     }
 }
